@@ -68,9 +68,16 @@ def b01(ctx, orc, queries=None):
         fails.append(f'bools after the caller modified an earlier result: {again!r} != table')
     oq = label_queries(orc.objects) if queries is None else [q for side, q in queries if side == 'intension']
     pq = label_queries(orc.properties) if queries is None else [q for side, q in queries if side == 'extension']
+    def forms(q):
+        v = [list(q), list(reversed(q)), list(q) + list(q[:1]), tuple(q), iter(list(q)), set(q), dict.fromkeys(q).keys(),
+             (x for x in q)]
+        if q and all(isinstance(x, str) and len(x) == 1 for x in q):
+            v.append(''.join(q))        # a str is an iterable of one-character labels
+            v.append(''.join(reversed(q)))
+        return v
     for q in oq:
         want = orc.intent(orc.omask(q))
-        variants = [list(q), list(reversed(q)), list(q) + list(q[:1]), tuple(q), iter(list(q))]
+        variants = forms(q)
         for v in variants:
             desc = repr(v)
             raw = ctx.intension(v, raw=True)
@@ -83,7 +90,7 @@ def b01(ctx, orc, queries=None):
             fails.append(f'intension({q!r}): raw and label forms differ')
     for q in pq:
         want = orc.extent(orc.pmask(q))
-        variants = [list(q), list(reversed(q)), list(q) + list(q[:1]), tuple(q), iter(list(q))]
+        variants = forms(q)
         for v in variants:
             desc = repr(v)
             raw = ctx.extension(v, raw=True)
@@ -237,6 +244,12 @@ def b05(ctx, orc):
         got = ctx.neighbors(list(q))
         if sorted((tuple(e), tuple(i)) for e, i in got) != want or len(got) != len(want):
             fails.append(f'context.neighbors({q!r}) = {got!r}, expected {want!r}')
+        if q:    # repeated labels, also padded to the number of objects; a one-shot iterator
+            for form in (list(q) + [q[0]] * max(1, orc.n - len(q)), iter(list(q) + list(q))):
+                desc = repr(form)
+                got = ctx.neighbors(form)
+                if sorted((tuple(e), tuple(i)) for e, i in got) != want:
+                    fails.append(f'context.neighbors({desc}) = {got!r}, expected {want!r}')
         raw = ctx.neighbors(list(q), raw=True)
         if sorted((rawmask(e), rawmask(i)) for e, i in raw) != sorted((u, orc.intent(u)) for u in orc.upper_covers(base)):
             fails.append(f'context.neighbors({q!r}, raw=True) differs from the upper covers')
@@ -444,22 +457,38 @@ def b10(ctx, orc):
 def b18(ctx, orc):
     fails = []
     lat = ctx.lattice
+    BIG = 12      # intents beyond this size: the full enumeration (2^size subsets) is replaced by a prefix check
     for c in lat:
         abandon(iter(c.attributes()))
     for c in lat:
         e = _emask(orc, c)
         full_intent = orc.plabels(orc.intent(e))
-        attrs = [tuple(a) for a in c.attributes()]
-        if e == 0:
-            if attrs != [full_intent]:
-                fails.append(f'attributes() of the empty-extent concept = {attrs!r}, expected [{full_intent!r}]')
-        else:
-            want = [orc.plabels(g) for g in orc.generators(e)]
-            if attrs != want:
-                fails.append(f'attributes() of {c.extent!r} = {attrs!r}, expected {want!r}')
+        big = len(full_intent) > BIG and e != 0
+        if big:
+            attrs = [tuple(a) for a in itertools.islice(c.attributes(), 40)]
+            keys = [(len(a), tuple(orc.properties.index(p) for p in a)) for a in attrs]
+            if keys != sorted(keys) or len(set(attrs)) != len(attrs):
+                fails.append(f'attributes() of {c.extent!r}: first sets not in shortlex order / repeated')
             for a in attrs:
-                if lat(a) is not c:
-                    fails.append(f'lattice({a!r}) does not regenerate {c.extent!r}')
+                if orc.extent(orc.pmask(a)) != e or not set(a) <= set(full_intent):
+                    fails.append(f'attributes() of {c.extent!r} yields {a!r} which does not generate the concept')
+            # the shortest generating sets by brute force up to size 2
+            small = [orc.plabels(mask(cmb)) for k in range(3) for cmb in itertools.combinations(bits(orc.intent(e)), k)
+                     if orc.extent(mask(cmb)) == e]
+            if small and attrs[:len(small)] != small[:len(attrs)]:
+                fails.append(f'attributes() of {c.extent!r} starts with {attrs[:3]!r}, expected {small[:3]!r}')
+        else:
+            attrs = [tuple(a) for a in c.attributes()]
+            if e == 0:
+                if attrs != [full_intent]:
+                    fails.append(f'attributes() of the empty-extent concept = {attrs!r}, expected [{full_intent!r}]')
+            else:
+                want = [orc.plabels(g) for g in orc.generators(e)]
+                if attrs != want:
+                    fails.append(f'attributes() of {c.extent!r} = {attrs!r}, expected {want!r}')
+                for a in attrs[:64]:
+                    if lat(a) is not c:
+                        fails.append(f'lattice({a!r}) does not regenerate {c.extent!r}')
         mn = tuple(c.minimal())
         if c is lat.infimum:
             if mn != full_intent:
@@ -836,6 +865,24 @@ def b11(ctx, orc, light=False):
     finally:
         import shutil
         shutil.rmtree(tmp, ignore_errors=True)
+    if not light:
+        # the same table under labels that need escaping in the text forms
+        nasty_o = ['C:\\temp', "it's", 'say "x"', 'tab\there', 'new\nline', 'é ü', 'a,b', '  pad ', '\\', '{}']
+        nasty_p = ['C:\\new', "p's", '"', 'p\tq', 'p\nq', 'ß', ',', ' ', 'back\\slash\\', '[]']
+        if orc.n <= len(nasty_o) and orc.m <= len(nasty_p):
+            no, npp = nasty_o[:orc.n], nasty_p[:orc.m]
+            c0 = C(no, npp, orc.table)
+            c0.lattice
+            reloads = {'fromdict': C.fromdict(c0.todict()),
+                       'python-literal': C.fromstring(c0.tostring(frmat='python-literal'), frmat='python-literal')}
+            buf = io.StringIO()
+            c0.tojson(buf)
+            reloads['json'] = C.fromjson(io.StringIO(buf.getvalue()))
+            for how, c1 in reloads.items():
+                if not (c1 == c0) or tuple(c1.objects) != tuple(no) or tuple(c1.properties) != tuple(npp):
+                    fails.append(f'{how} round trip with labels that need escaping: {c1.objects!r} {c1.properties!r}')
+                elif lattice_summary(c1.lattice) != lattice_summary(c0.lattice):
+                    fails.append(f'{how} round trip with labels that need escaping: lattice differs')
     # raw=True under permutations of the stored sequences
     L = _norm(want)['lattice']
     k = len(L)
@@ -1055,5 +1102,8 @@ def decoys(concepts, objects, properties, table, battery=None):
 
 def make(concepts, case):
     """(context, oracle) for a replay case with objects/properties/table"""
-    ctx = concepts.Context(case['objects'], case['properties'], [tuple(r) for r in case['table']])
+    # crosses are handed over as truthy values of three kinds (True, 2, 3), blanks as False / 0 -- as in the symbolic runs
+    rows = [tuple(((True, 2, 3)[(i + 2 * j) % 3] if c else (False if (i + 2 * j) % 3 == 0 else 0))
+                  for j, c in enumerate(r)) for i, r in enumerate(case['table'])]
+    ctx = concepts.Context(case['objects'], case['properties'], rows)
     return ctx, Oracle(case['objects'], case['properties'], case['table'])
